@@ -307,6 +307,37 @@ with open(os.path.join(kdir, "lru_with_stats.go"), "w") as f:
     f.write(t)
 overlay[src] = os.path.join(kdir, "lru_with_stats.go")
 
+# ---- memory database: object ids are numbered by the simulator (bson.NewObjectID mixes in
+# five process-random bytes and a randomly initialised counter: the same run would carry
+# different ids in every process and in its own replay)
+src = os.path.join(repo, "server/backend/database/memory/database.go")
+t = open(src).read()
+pat = r"return types\.ID\(bson\.NewObjectID\(\)\.Hex\(\)\)"
+if len(re.findall(pat, t)) != 1:
+    sys.stderr.write("geninstr: cannot find exactly one bson.NewObjectID in %s\n" % src)
+    sys.exit(2)
+t = re.sub(pat, "return types.ID(zzsimrt.ID(bson.NewObjectID().Hex()))", t)
+t = re.sub(r'^import \(\n', 'import (\n\t"github.com/yorkie-team/yorkie/pkg/zzsimrt"\n', t, count=1, flags=re.M)
+# api/types.NewID is the other generator
+src2 = os.path.join(repo, "api/types/id.go")
+t2 = open(src2).read()
+pat2 = r"return ID\(bson\.NewObjectID\(\)\.Hex\(\)\)"
+if len(re.findall(pat2, t2)) != 1:
+    sys.stderr.write("geninstr: cannot find exactly one bson.NewObjectID in %s\n" % src2)
+    sys.exit(2)
+t2 = re.sub(pat2, "return ID(zzsimrt.ID(bson.NewObjectID().Hex()))", t2)
+t2 = re.sub(r'^import \(\n', 'import (\n\t"github.com/yorkie-team/yorkie/pkg/zzsimrt"\n', t2, count=1, flags=re.M)
+tdir = os.path.join(out, "types")
+os.makedirs(tdir, exist_ok=True)
+with open(os.path.join(tdir, "id.go"), "w") as f:
+    f.write(t2)
+overlay[src2] = os.path.join(tdir, "id.go")
+mdir = os.path.join(out, "memory")
+os.makedirs(mdir, exist_ok=True)
+with open(os.path.join(mdir, "database.go"), "w") as f:
+    f.write(t)
+overlay[src] = os.path.join(mdir, "database.go")
+
 with open(os.path.join(out, "overlay.json"), "w") as f:
     json.dump({"Replace": overlay}, f, indent=1)
 print("overlay: %d files" % len(overlay))
